@@ -4,7 +4,7 @@ from . import gen
 
 def main(argv):
     if not argv:
-        print('usage: vx gen <unit> | check <Cxx> [--tier quick|thorough] | manifest')
+        print('usage: vx gen <unit> | check <Cxx> [--tier quick|thorough] | replay <replay.json> | manifest | setup')
         return 2
     if argv[0] == 'gen':
         try:
@@ -26,6 +26,40 @@ def main(argv):
         from . import manifest
         manifest.build()
         print('MANIFEST.json written')
+        return 0
+    if argv[0] == 'replay':
+        # re-decides ONE recorded failed obligation against the current tree: regenerates the unit from /repo, re-runs the
+        # verifier (or the Kani harness, printing its concrete counterexample) and reports whether it still fails
+        from . import runner, kanirun
+        rec = json.load(open(argv[1]))
+        ob = rec['failed_obligation']
+        print('property=%s obligation=%s' % (rec['property'], ob))
+        if rec.get('verifier') == 'kani':
+            name = rec['function']
+            res, cmd = kanirun.run_harnesses([name])
+            st = res[name]['status']
+            print('kani harness %s: %s' % (name, st))
+            if st == 'failed':
+                cx = kanirun.counterexample(name)
+                print('failing input of the real code (Kani concrete playback):')
+                print(cx or '(none produced)')
+                print('REPLAY: obligation still fails on the current tree')
+                return 1
+            print('REPLAY: obligation %s on the current tree' % ('holds' if st == 'ok' else 'is undecided'))
+            return 0 if st == 'ok' else 2
+        unit = ob.split('::', 1)[0]
+        r = runner.run_unit(unit, rlimit=40)
+        if r.info is None or r.undecided:
+            for m in r.undecided[:5]:
+                print('UNDECIDED:', m[:300])
+        hit = [x for x in r.failed if x['obligation'] == ob]
+        if hit:
+            print(hit[0]['rendered'][:3000])
+            print('REPLAY: obligation still fails on the current tree (the verifier gives no counterexample; no-failing-input-found)')
+            return 1
+        if r.info is None or r.undecided:
+            return 2
+        print('REPLAY: obligation is discharged on the current tree')
         return 0
     if argv[0] == 'setup':
         import shutil
